@@ -435,6 +435,8 @@ m("oci-delete-forgets-references-on-failed-save", ["C08"],
 			return nil, err""", """			return nil, err"""))
 m("referrers-callback-unsupported-error-triggers-fallback", ["C15"],
   ("registry/remote/repository.go", "if fnErr == nil && errors.Is(err, errdef.ErrUnsupported) {", "if errors.Is(err, errdef.ErrUnsupported) {"))
+m("oci-delete-matches-references-by-whole-descriptor", ["C09", "C08"],
+  ("content/oci/oci.go", "if desc.Digest == target.Digest {", "if desc.Digest == target.Digest && desc.MediaType == target.MediaType && desc.Size == target.Size {"))
 # ---- auth / retry (C16, C17) ----
 m("auth-cache-key-without-host", ["C16"],
   ("registry/remote/auth/cache.go", """	entry, ok := cc.cache.Load(registry)
